@@ -16,28 +16,40 @@ writes) with the terminal model (`Tea/VT/Term.lean`: what a terminal does with
 it).  Vocabulary (defined in `Tea/Proofs/Paint.lean`, `Tea/Proofs/AltScreen.lean`):
 
 * `b.row w R`     — the cells of tape row `R` in columns `0 .. w-1`;
-* `padLine w l`   — `l` cut at `w` bytes, then padded with blanks (32) to `w`;
+* `Ansi.visible l` — what a terminal shows of a line `l`: its bytes without the escape sequences
+  (`ESC x`, `ESC [ … final`; styling) it contains (`Tea/Prelude/Ansi.lean`); the cells a line
+  takes are `lineWidth l = (Ansi.visible l).length`;
+* `padLine w v`   — `v` cut at `w` bytes, then padded with blanks (32) to `w`; a row that shows
+  line `l` is `padLine w (Ansi.visible l)`: the visible part of `l`, cut at the width and padded;
 * window row `i` of a buffer `b` is tape row `b.top + i`;
 * `AltInv r t`    — renderer `r` and terminal `t` are both on the alt screen with the
   same size `w ≥ 1`, `h ≥ 1`; window rows `≥ r.altLinesRendered` are blank; if the line
   cache `r.lastLines` is valid it has `altLinesRendered` lines and window row `i` shows
-  cached line `i`; and a non-empty `lastRender` has the cache that `flush` computed for it.
+  (the visible part of) cached line `i`; and a non-empty `lastRender` has the cache that `flush`
+  computed for it.
 
 * `viewTop r t`  — inline: the tape row of the first view line, `cr + 1 - max linesRendered 1`;
 * `InlineInv r t` — renderer `r` and terminal `t` are both on the main screen with the same
   size; the cursor is in column 0 (no pending wrap) of the last of the `max linesRendered 1`
   view rows, which lie inside the window; window rows below the cursor are blank; a valid line
-  cache has `linesRendered` lines and view row `i` shows cached line `i`; and a non-empty
-  `lastRender` has the cache that `flush` computed for it.
+  cache has `linesRendered` lines and view row `i` shows (the visible part of) cached line `i`;
+  and a non-empty `lastRender` has the cache that `flush` computed for it.
 
 Rows are rows of the unbounded tape of `Tea/VT/Term.lean`: scrolling moves the window
 (`top`), not the content, so "row R is unchanged" also covers rows scrolled out of the window.
 
-Printable text: the model's `.text` prints EVERY byte with `putChar`, so the
-theorems hold for all byte strings; they describe a real terminal only when the
-view's lines are printable (`Printable`), which is where the terminal model was
-validated.  The hypothesis is therefore not needed by (and not included in) the
-statements.
+Printable and styled text: the model's `.text s` runs the escape-sequence parser of
+`Tea/Prelude/Ansi.lean` over `s` and prints, with `putChar`, exactly the bytes of
+`Ansi.visible s`; the bytes of escape sequences (SGR styling) take no cell, and the
+renderer measures and cuts lines with the same metric (`lineWidth`, `truncateLine`: all
+escape bytes are kept, printing bytes beyond the width are dropped).  The theorems hold
+for ALL byte strings, well-formed or not: what a row shows of a line `l` is
+`Ansi.visible l`, cut at the width and padded.  They describe a real terminal when every
+line consists of printable ASCII bytes and complete CSI sequences (`ESC [`, parameter and
+intermediate bytes, a final byte `0x40 .. 0x7e`); plain `Printable` lines, which are their
+own visible part (`Ansi.visible_of_plain`), are the special case without sequences.  That
+is where the terminal model was validated.  The hypothesis is therefore not needed by (and
+not included in) the statements.
 
 Only property theorems live here; helper lemmas are in `Tea/Proofs`.
 -/
@@ -45,13 +57,15 @@ namespace Tea.Props.C06
 open Tea Tea.VT Tea.Render
 
 /-- every byte of every line is a printable ASCII byte (the domain in which one byte is one
-cell and `.text` is nothing but `putChar`s on a real terminal) -/
+cell and `.text` is nothing but `putChar`s on a real terminal; such a line is its own visible
+part) -/
 def Printable (ls : List Line) : Prop := ∀ l ∈ ls, ∀ b ∈ l, 32 ≤ b ∧ b < 127
 
 /-- **Level 2: a full repaint on the alt screen.**  Cache invalid (after a resize, a repaint
 request, `clearScreen`, entering the alt screen), renderer and terminal on the alt screen with
-the same size: after the flush the first `n` window rows are exactly the `n` lines of the frame,
-each cut at the width and padded with blanks; the window rows below are blank if the previous
+the same size: after the flush the first `n` window rows are exactly the `n` lines of the frame
+(what is visible of them: escape sequences take no cell), each cut at the width and padded with
+blanks; the window rows below are blank if the previous
 frame was taller (`altLinesRendered > n`: ED0) and otherwise untouched; nothing scrolled
 (`top` unchanged), the main screen is untouched, and the cursor rests at the start of the last
 view row. -/
@@ -61,7 +75,8 @@ theorem C06_alt_repaint (r : RState) (t : Term) (halt : r.altActive = true) (hon
     (t' : Term) (ht' : t' = applyOps t (flush r).2) :
     t'.onAlt = true ∧ t'.w = t.w ∧ t'.h = t.h ∧ t'.main = t.main ∧ t'.alt.top = t.alt.top ∧
     1 ≤ (frameLines r).length ∧ (frameLines r).length ≤ t.h ∧
-    (∀ i l, (frameLines r)[i]? = some l → t'.alt.row t.w (t.alt.top + i) = padLine t.w l) ∧
+    (∀ i l, (frameLines r)[i]? = some l →
+      t'.alt.row t.w (t.alt.top + i) = padLine t.w (Ansi.visible l)) ∧
     (∀ i, (frameLines r).length ≤ i → i < t.h →
       (r.altLinesRendered > (frameLines r).length →
         t'.alt.row t.w (t.alt.top + i) = List.replicate t.w 32) ∧
@@ -90,28 +105,29 @@ theorem C06_alt_repaint (r : RState) (t : Term) (halt : r.altActive = true) (hon
 
 /-- **Clipping.**  The frame a flush paints is the last `height` lines of the view (all of
 them when there are at most `height`), so it has between 1 and `height` lines; and what a row
-shows of a line is its first `width` bytes (`padLine`): a painted row is exactly `width` cells,
-never more — together with "`top` unchanged / rows below untouched" in the flush theorems this
-is "wide lines are cut and never wrap". -/
+shows of a line is the first `width` bytes of its visible part (`padLine`): a painted row is
+exactly `width` cells, never more, and it is the same row whether the line or the line cut by
+the renderer (`truncateLine`, which keeps every escape sequence and takes
+`min width (lineWidth l)` cells) is shown — together with "`top` unchanged / rows below
+untouched" in the flush theorems this is "wide lines are cut and never wrap". -/
 theorem C06_clip (r : RState) (hh : 1 ≤ r.height) :
     frameLines r = (splitLines r.buf).drop ((splitLines r.buf).length - r.height) ∧
     1 ≤ (frameLines r).length ∧ (frameLines r).length ≤ r.height ∧
-    ∀ (w : Nat) (l : Line), (padLine w l).length = w ∧ padLine w l = padLine w (truncateLine w l) ∧
-      (padLine w l).take (min w l.length) = l.take w := by
+    ∀ (w : Nat) (l : Line), (padLine w (Ansi.visible l)).length = w ∧
+      padLine w (Ansi.visible l) = padLine w (Ansi.visible (truncateLine w l)) ∧
+      lineWidth (truncateLine w l) = min w (lineWidth l) ∧
+      (padLine w (Ansi.visible l)).take (min w (lineWidth l)) = (Ansi.visible l).take w := by
   refine ⟨frameOf_eq_drop _ _ hh, frameOf_length_pos _ _, frameOf_length_le _ _ hh, ?_⟩
   intro w l
-  refine ⟨padLine_length w l, ?_, ?_⟩
-  · simp only [padLine, truncateLine, List.take_take, Nat.min_self, List.length_take]
-    congr 2
-    omega
-  · simp [padLine, List.length_take]
+  refine ⟨padLine_length w _, ?_, Ansi.width_truncate w l, padLine_take_min w _⟩
+  rw [visible_truncateLine, padLine_take]
 
 /-- **Level 3: every alt-screen render shows exactly the latest view, whatever changed.**
 If renderer and terminal satisfy `AltInv` (see the header), then after `write s` and `flush`
 — whether the flush skips unchanged lines, repaints everything, shrinks the view (ED0) or does
 nothing at all because the view is byte-identical — the invariant holds again and the screen is
-exactly the new frame `v`: window row `i < n` is line `i` of `v` cut at the width and padded
-with blanks, every window row `n ≤ i < h` is blank; nothing scrolled, the main screen is
+exactly the new frame `v`: window row `i < n` is (the visible part of) line `i` of `v` cut at the
+width and padded with blanks, every window row `n ≤ i < h` is blank; nothing scrolled, the main screen is
 untouched; and when something was written the cursor rests at the start of the last view row.
 An empty `s` is the one-blank view, so it clears the previous view. -/
 theorem C06_alt_flush (r : RState) (t : Term) (hinv : AltInv r t) (s : Bytes)
@@ -120,7 +136,7 @@ theorem C06_alt_flush (r : RState) (t : Term) (hinv : AltInv r t) (s : Bytes)
     AltInv r' t' ∧ t'.alt.top = t.alt.top ∧ t'.main = t.main ∧ t'.w = t.w ∧ t'.h = t.h ∧
     1 ≤ (frameLines (write r s)).length ∧ (frameLines (write r s)).length ≤ t.h ∧
     (∀ i l, (frameLines (write r s))[i]? = some l →
-      t'.alt.row t.w (t.alt.top + i) = padLine t.w l) ∧
+      t'.alt.row t.w (t.alt.top + i) = padLine t.w (Ansi.visible l)) ∧
     (∀ i, (frameLines (write r s)).length ≤ i → i < t.h →
       t'.alt.row t.w (t.alt.top + i) = List.replicate t.w 32) ∧
     ((write r s).buf ≠ r.lastRender →
@@ -161,14 +177,15 @@ theorem C06_alt_history (ops : List ROp) : ∀ (r : RState) (t : Term), AltInv r
     simpa [run] using h2
 
 /-- Consequently, after ANY such history on the alt screen, the next `write s; flush` leaves the
-window showing exactly the frame of `s` (rows `< n`) and blanks (rows `n .. h-1`). -/
+window showing exactly the frame of `s` (rows `< n`: the visible part of each line, cut and
+padded) and blanks (rows `n .. h-1`). -/
 theorem C06_alt_always (r : RState) (t : Term) (hinv : AltInv r t) (ops : List ROp)
     (hs : ∀ o ∈ ops, altStable o = true) (s : Bytes)
     (r1 : RState) (t1 t' : Term) (hr1 : r1 = (run r ops).1)
     (ht1 : t1 = (run r ops).2.foldl applyOps t)
     (ht' : t' = applyOps t1 (flush (write r1 s)).2) :
     (∀ i l, (frameLines (write r1 s))[i]? = some l →
-      t'.alt.row t'.w (t'.alt.top + i) = padLine t'.w l) ∧
+      t'.alt.row t'.w (t'.alt.top + i) = padLine t'.w (Ansi.visible l)) ∧
     (∀ i, (frameLines (write r1 s)).length ≤ i → i < t'.h →
       t'.alt.row t'.w (t'.alt.top + i) = List.replicate t'.w 32) := by
   have h1 : AltInv r1 t1 := by rw [hr1, ht1]; exact C06_alt_history ops r t hinv hs
@@ -181,8 +198,8 @@ If renderer and terminal satisfy `InlineInv` (see the header) and no printed lin
 then after `write s` and `flush` — skipping, repainting, shrinking (ED0), growing past the
 bottom of the window (LF scrolls) or doing nothing — the invariant holds again, and:
 the view starts at the same tape row `R0 = viewTop r t` as before and its `n` rows end at the
-cursor row; the cursor rests in column 0 with no pending wrap; view row `i` is line `i` of the
-frame cut at the width and padded with blanks; every window row below the cursor is blank
+cursor row; the cursor rests in column 0 with no pending wrap; view row `i` is (the visible part
+of) line `i` of the frame cut at the width and padded with blanks; every window row below the cursor is blank
 (nothing stale); every row above `R0` is untouched; the window scrolled by exactly what the
 view needs (`top' = max top (R0 + n - h)`); the alt screen is untouched.
 (Flushes that also print queued lines: `Tea.Props.C14.C14_flush`, which has the same
@@ -194,7 +211,7 @@ theorem C06_inline_flush (r : RState) (t : Term) (hinv : InlineInv r t) (hq : r.
     t'.main.cr + 1 = viewTop r t + (frameLines (write r s)).length ∧
     t'.main.cc = 0 ∧ t'.main.pw = false ∧
     (∀ i l, (frameLines (write r s))[i]? = some l →
-      t'.main.row t.w (viewTop r t + i) = padLine t.w l) ∧
+      t'.main.row t.w (viewTop r t + i) = padLine t.w (Ansi.visible l)) ∧
     (∀ ρ, t'.main.cr < ρ → ρ < t'.main.top + t.h → t'.main.row t.w ρ = List.replicate t.w 32) ∧
     (∀ ρ, ρ < viewTop r t → ∀ c, t'.main.cells ρ c = t.main.cells ρ c) ∧
     t'.main.top = max t.main.top (viewTop r t + (frameLines (write r s)).length - t.h) := by
@@ -257,6 +274,37 @@ set_option maxRecDepth 100000 in
 example : altRows (renderAll r0 t0 [[49,10,50,10,51,10,52,10,53,10,54,10,
       97,98,99,100,101,102,103,104,105,106,107,108], []]).2 5 =
     List.replicate 5 (List.replicate 10 32) := by decide
+
+/-! ### styled lines (SGR sequences inside the view), W = 10, H = 5, alt screen -/
+
+/-- the view "\x1b[1mabcdefghijkl\x1b[0m\nxy": the first line takes 12 cells, the renderer cuts
+it to 10 cells and keeps BOTH escape sequences (18 bytes are written for it, no EL0: the row is
+full); the second line is narrower than the terminal and is followed by EL0 -/
+example : (flush (write r0 [27,91,49,109,97,98,99,100,101,102,103,104,105,106,107,108,27,91,48,109,
+      10,120,121])).2 =
+    [.home, .cr, .text [27,91,49,109,97,98,99,100,101,102,103,104,105,106,27,91,48,109], .cr, .lf,
+     .text [120,121], .el0, .cup 2] := by decide
+
+set_option maxRecDepth 100000 in
+/-- ... and the screen shows row 0 = "abcdefghij" (10 cells, the escape sequences take none and
+nothing wraps), row 1 = "xy" padded, blank rows below -/
+example : altRows (renderAll r0 t0 [[27,91,49,109,97,98,99,100,101,102,103,104,105,106,107,108,
+      27,91,48,109,10,120,121]]).2 5 =
+    [[97,98,99,100,101,102,103,104,105,106], [120,121,32,32,32,32,32,32,32,32],
+     [32,32,32,32,32,32,32,32,32,32], [32,32,32,32,32,32,32,32,32,32],
+     [32,32,32,32,32,32,32,32,32,32]] := by decide
+
+set_option maxRecDepth 100000 in
+/-- a styled line narrower than the terminal ("\x1b[31mab\x1b[0m": 11 bytes, 2 cells) is written
+whole and followed by EL0; it replaces the longer plain line that was there, and the row shows
+"ab" padded -/
+example :
+    (flush (write (flush (write r0 [97,98,99,100,101,102])).1 [27,91,51,49,109,97,98,27,91,48,109])).2 =
+      [.home, .text [27,91,51,49,109,97,98,27,91,48,109], .el0, .cup 1] ∧
+    altRows (renderAll r0 t0 [[97,98,99,100,101,102], [27,91,51,49,109,97,98,27,91,48,109]]).2 2 =
+      [[97,98,32,32,32,32,32,32,32,32], [32,32,32,32,32,32,32,32,32,32]] ∧
+    lineWidth [27,91,51,49,109,97,98,27,91,48,109] = 2 ∧
+    Ansi.visible [27,91,51,49,109,97,98,27,91,48,109] = [97,98] := by decide
 
 /-! ### concrete runs, W = 10, H = 5, inline; the cursor starts on window row 3, row 2 holds
 older output ("xxxxxxxxxx") -/
